@@ -88,7 +88,7 @@ SPECS["C22"] = {
 SPECS["C24"] = {
     "parts": [{"engine": "m", "module": "c24"}],
     "bounds": "one element per VR class: AT (1-2 symbolic tags), US/SS/UL/SL (2 full-width symbolic items), LO and PN (one 3-byte symbolic printable ASCII string), "
-              "OB/UN (3 symbolic bytes), and the empty value for US/LO/AT/OB/PN",
+              "OB/UN (3 symbolic bytes), OB with 4100 symbolic bytes (base64 must cover the whole value in one piece), and the empty value for US/LO/AT/OB/PN",
     "outside": "object level (key format and ascending order come from DicomJson<Tag> + BTreeMap iteration; the key serializer is encoded, the map iteration is not), "
                "sequences, FL/FD (non-finite handling), 64-bit VRs, the JSON text layer of serde_json, the base64 alphabet (third-party crate; only WHAT is encoded is checked)",
     "assumptions": ["serde Serializer/SerializeMap/SerializeSeq/SerializeStruct calls are contracts that record events", "core::fmt template decoding per library/core/src/fmt/mod.rs",
